@@ -6,11 +6,13 @@
 (* occur (65/66 give equal UTF16CodePoint offsets on neighbouring codes).  One action per         *)
 (* ToUnicodeCMap::put / put_char.                                                                 *)
 (*                                                                                                *)
-(* Dev_h34 / Dev_h35 = TRUE: the interval maps "as the code is"; Refines then has the known        *)
-(* counter-examples and RefinesExceptKnown asserts that every counter-example lies in one of the  *)
-(* KnownClasses.  FALSE: "as repaired", Refines holds.  With Emit every state is printed as one   *)
+(* Dev_h34 / Dev_h35 = FALSE: the interval maps as the code is (since fix: 3c7db25), Refines       *)
+(* holds.  TRUE: the repaired defects seeded back (cfg *_cex, a negative control): Refines then    *)
+(* has the former counter-examples and RefinesExceptKnown asserts that every counter-example lies  *)
+(* in one of the KnownClasses.  With Emit every state is printed as one                            *)
 (* replay case: program text, code bytes, the text the declarative layer defines (per code and   *)
-(* for the whole string), the impl-shaped prediction and the input class of every code.           *)
+(* for the whole string), the impl-shaped prediction (m; o = the prediction with the repaired      *)
+(* defects switched on, used to name a regression) and the input class of every code.              *)
 EXTENDS CMap, Json
 
 CONSTANTS Lens, NCodes, MaxDefs, Dev_h34, Dev_h35, Emit, KnownClasses, BaseVal, Rich
@@ -73,14 +75,15 @@ Refines ==
           IF Covered(defs, c[1], c[2]) THEN ~Mismatch(c) ELSE Got(c) = <<>>
     /\ ImplDecodeUnits(dev, maps, BytesSeq(CovSeq)) = Units(defs, CovSeq)
 
-\* "as the code is": every counter-example to Refines is one of the listed classes
+\* every counter-example to Refines is one of the listed classes (none as the code is; the four former
+\* classes with the deviations seeded back)
 RefinesExceptKnown ==
     \A i \in 1..Len(AllCodes) : LET c == AllCodes[i] IN
           IF Covered(defs, c[1], c[2]) THEN (Mismatch(c) => CaseClass(defs, c[1], c[2]) \in KnownClasses)
           ELSE Got(c) = <<>>
 
-\* strict refinement that reports its counter-example (used "as the code is": must be violated, and
-\* the reported classes must be listed ones)
+\* strict refinement that reports its counter-example (used with the repaired defects seeded back: must be
+\* violated, and the reported classes must be the former findings)
 RefinesCex ==
     Refines \/ LET cs == SelectSeq(CovSeq, Mismatch) IN
                PrintT(<<"CEX", ToJson([d |-> defs, k |-> [i \in 1..Len(cs) |-> CaseClass(defs, cs[i][1], cs[i][2])]])>>) /\ FALSE
@@ -107,6 +110,9 @@ StyleOf(n) == [lower |-> n % 2 = 1,
 CodeSpace == [i \in 1..Len(LenSeq) |-> <<LenSeq[i], BaseVal[LenSeq[i]], BaseVal[LenSeq[i]] + NCodes - 1>>]
 
 ImplChars(c) == LET g == Got(c) IN IF g = Panic THEN Panic ELSE Text(g)
+\* what the interval maps with the repaired defects (h34, h35) would answer
+devOld == [h34 |-> TRUE, h35 |-> TRUE]
+OldChars(c) == LET g == ImplGet(devOld, BuildMaps(devOld, defs), c[1], c[2]) IN IF g = Panic THEN Panic ELSE Text(g)
 
 EmitInv ==
     (Emit /\ Len(defs) >= 1) =>
@@ -117,6 +123,7 @@ EmitInv ==
             c |-> [i \in 1..Len(cs) |-> BytesOf(cs[i][1], cs[i][2])],
             e |-> [i \in 1..Len(cs) |-> Text(Lookup(defs, cs[i][1], cs[i][2]))],
             m |-> [i \in 1..Len(cs) |-> ImplChars(cs[i])],
+            o |-> [i \in 1..Len(cs) |-> OldChars(cs[i])],
             k |-> [i \in 1..Len(cs) |-> CaseClass(defs, cs[i][1], cs[i][2])],
             w |-> Decode(defs, cs)])>>)
 =============================================================================
